@@ -197,6 +197,13 @@ func cmdCheck(args []string) int {
 		byID := map[string][]*sx.Failure{}
 		var ids []string
 		for _, f := range x.Failures {
+			// a harness shared between properties reports each assertion under the property its id names
+			if f.Kind == "assert" && !strings.HasPrefix(f.AssertID, id+".") {
+				continue
+			}
+			if f.Kind == "panic" && id != "C09" && !hs.Panics {
+				continue
+			}
 			key := f.AssertID
 			if f.Kind == "panic" {
 				key = f.AssertID + " @ " + f.Where
